@@ -36,3 +36,22 @@ Print Assumptions C11_total.
 Theorem C11_too_short : forall v, len v < 37 -> parse_auth_data v = Err (Lib InvalidAuthenticatorDataStructure).
 Proof. exact parse_auth_data_short. Qed.
 Print Assumptions C11_too_short.
+
+(* ---- exactness and leftover rejection for EVERY laid-out authenticator data ---- *)
+From PW Require Import Spec.AuthDataSpec Proofs.AuthDataExact.
+
+(* rp hash of 32 bytes, any flags byte consistent with the presence of the optional parts, counter 0..2^32-1,
+   AAGUID of 16 bytes, credential id of ANY length 0..65535, any well-formed COSE key / extension value
+   (ints, byte/text strings, booleans, null, arrays, maps, nested without bound): parsing the layout returns
+   exactly those fields; with ANY non-empty suffix it raises InvalidAuthenticatorDataStructure *)
+Theorem C11_exact_and_leftover : forall rp fl count a e suffix,
+  len rp = 32 -> 0 <= count < 2 ^ 32 ->
+  flag fl 6 = is_some a -> flag fl 7 = is_some e ->
+  att_ok a (ext_bytes e ++ suffix) -> ext_ok e ->
+  parse_auth_data (authdata_layout rp fl count a e ++ suffix) =
+    match suffix with
+    | [] => Ok (expected rp fl count a e)
+    | _ => Err (Lib InvalidAuthenticatorDataStructure)
+    end.
+Proof. exact parse_layout. Qed.
+Print Assumptions C11_exact_and_leftover.
